@@ -251,7 +251,8 @@ class IsInstance:
 
     def __str__(self):
         return "{}({})".format(
-            self.__class__.__name__, ", ".join(type.__name__ for type in self.types)
+            self.__class__.__name__,
+            ", ".join(getattr(type, "__name__", str(type)) for type in self.types),
         )
 
     def match(self, other):
@@ -271,10 +272,11 @@ class NotAnInstance(Mismatch):
         self.types = types
 
     def describe(self):
-        if len(self.types) == 1:
-            typestr = self.types[0].__name__
+        names = [getattr(type, "__name__", str(type)) for type in self.types]
+        if len(names) == 1:
+            typestr = names[0]
         else:
-            typestr = "any of (%s)" % ", ".join(type.__name__ for type in self.types)
+            typestr = "any of (%s)" % ", ".join(names)
         return f"'{self.matchee}' is not an instance of {typestr}"
 
 
